@@ -14,6 +14,7 @@ structure Hyp (a b : Ty) (v : Val) : Prop where
   wb : Ty.WF cfg b
   us : b.US
   ok : v.OK
+  tv : Val.TyOK cfg v
 
 def Sound (n : Nat) : Prop :=
   ∀ a b v, a.w + b.w ≤ n → Hyp cfg a b v → asg cfg false a b = true → inst cfg false b v = true → inst cfg false a v = true
@@ -239,8 +240,8 @@ theorem recv_object (p : Option (List Nat)) (b : Ty) (v : Val)
       cases v <;> simp at hi ⊢
       exact isPrefix_trans _ _ _ h hi
 
-theorem Hyp.mk' {a b : Ty} {v : Val} (fa : a.Frag) (fb : b.Frag) (wa : Ty.WF cfg a) (wb : Ty.WF cfg b) (us : b.US) (ok : v.OK) :
-    Hyp cfg a b v := ⟨fa, fb, wa, wb, us, ok⟩
+theorem Hyp.mk' {a b : Ty} {v : Val} (fa : a.Frag) (fb : b.Frag) (wa : Ty.WF cfg a) (wb : Ty.WF cfg b) (us : b.US) (ok : v.OK) (tv : Val.TyOK cfg v) :
+    Hyp cfg a b v := ⟨fa, fb, wa, wb, us, ok, tv⟩
 
 theorem recv_variant (n : Nat) (ih : Sound cfg n) (as : List Ty) (b : Ty) (v : Val)
     (hw : (Ty.variant as).w + b.w ≤ n + 1) (H : Hyp cfg (.variant as) b v)
@@ -253,7 +254,7 @@ theorem recv_variant (n : Nat) (ih : Sound cfg n) (as : List Ty) (b : Ty) (v : V
   have fa := H.fa; unfold Ty.Frag at fa
   have wa := H.wa; unfold Ty.WF at wa
   simp only [Ty.w] at hw
-  exact ⟨a, hm, ih a b v (by have := Ty.w_lt_wl hm; omega) ⟨fa a hm, H.fb, wa a hm, H.wb, H.us, H.ok⟩ ha hi⟩
+  exact ⟨a, hm, ih a b v (by have := Ty.w_lt_wl hm; omega) ⟨fa a hm, H.fb, wa a hm, H.wb, H.us, H.ok, H.tv⟩ ha hi⟩
 
 theorem inst_undef_eq {v : Val} (h : inst cfg false .undef v = true) : v = .undef := by
   unfold inst at h; cases v <;> simp at h; rfl
@@ -269,9 +270,9 @@ theorem recv_optional (n : Nat) (ih : Sound cfg n) (x : Ty) (b : Ty) (v : Val)
   rw [Bool.or_eq_true] at h
   unfold inst
   rcases h with h | h
-  · have := ih .undef b v (by simp [Ty.w]; omega) ⟨by unfold Ty.Frag; trivial, H.fb, by unfold Ty.WF; trivial, H.wb, H.us, H.ok⟩ h hi
+  · have := ih .undef b v (by simp [Ty.w]; omega) ⟨by unfold Ty.Frag; trivial, H.fb, by unfold Ty.WF; trivial, H.wb, H.us, H.ok, H.tv⟩ h hi
     rw [inst_undef_eq cfg this]; simp
-  · have := ih x b v (by omega) ⟨fa, H.fb, wa, H.wb, H.us, H.ok⟩ h hi
+  · have := ih x b v (by omega) ⟨fa, H.fb, wa, H.wb, H.us, H.ok, H.tv⟩ h hi
     simp [this]
 
 theorem recv_notUndef (n : Nat) (ih : Sound cfg n) (x : Ty) (b : Ty) (v : Val)
@@ -285,7 +286,7 @@ theorem recv_notUndef (n : Nat) (ih : Sound cfg n) (x : Ty) (b : Ty) (v : Val)
   have key : ∀ (b' : Ty), b' = b → asg cfg false b' .undef = false → asg cfg false x b' = true → inst cfg false (.notUndef x) v = true := by
     intro b' hb' h1 h2
     subst hb'
-    have hx := ih x b' v (by omega) ⟨fa, H.fb, wa, H.wb, H.us, H.ok⟩ h2 hi
+    have hx := ih x b' v (by omega) ⟨fa, H.fb, wa, H.wb, H.us, H.ok, H.tv⟩ h2 hi
     unfold inst
     have hv : v ≠ .undef := by
       intro hv; subst hv
@@ -304,8 +305,8 @@ theorem recv_notUndef (n : Nat) (ih : Sound cfg n) (x : Ty) (b : Ty) (v : Val)
     simp only [Bool.or_eq_true] at h
     have hx : inst cfg false x v = true := by
       rcases h with h | h
-      · exact ih x y v (by omega) ⟨fa, fb, wa, wb, us, H.ok⟩ h hi.2
-      · exact ih x (.notUndef y) v (by simp [Ty.w]; omega) ⟨fa, H.fb, wa, H.wb, H.us, H.ok⟩ h
+      · exact ih x y v (by omega) ⟨fa, fb, wa, wb, us, H.ok, H.tv⟩ h hi.2
+      · exact ih x (.notUndef y) v (by simp [Ty.w]; omega) ⟨fa, H.fb, wa, H.wb, H.us, H.ok, H.tv⟩ h
           (by unfold inst; simp [hi.1, hi.2])
     unfold inst; simp [hi.1, hx]
   | _ =>
@@ -327,11 +328,11 @@ theorem recv_sensitive (n : Nat) (ih : Sound cfg n) (x : Ty) (b : Ty) (v : Val)
   simp only [Ty.w] at hw
   unfold inst at hi ⊢
   cases v <;> simp at hi ⊢
-  exact ih x y _ (by omega) ⟨fa, fb, wa, wb, us, H.ok.inner⟩ h hi
+  exact ih x y _ (by omega) ⟨fa, fb, wa, wb, us, H.ok.inner, H.tv.inner⟩ h hi
 
 theorem triv_frag_str : Ty.Frag .str := by unfold Ty.Frag; trivial
 theorem leaf_hyp {a b : Ty} {v : Val} (H : Hyp cfg a b v) (c : Ty) (hf : c.Frag) (hwf : Ty.WF cfg c) : Hyp cfg c b v :=
-  ⟨hf, H.fb, hwf, H.wb, H.us, H.ok⟩
+  ⟨hf, H.fb, hwf, H.wb, H.us, H.ok, H.tv⟩
 
 theorem recv_scalar (n : Nat) (ih : Sound cfg n) (b : Ty) (v : Val)
     (hw : Ty.scalar.w + b.w ≤ n + 1) (H : Hyp cfg .scalar b v)
@@ -425,7 +426,7 @@ theorem recv_array (n : Nat) (ih : Sound cfg n) (e : Ty) (r : Rng) (b : Ty) (v :
         rcases this with h3 | h3
         · exact absurd h3 hnone
         · exact h3
-      exact ih e e' x (by omega) ⟨fa, fb, wa, wb, us, H.ok.elems x hx⟩ hee hx'
+      exact ih e e' x (by omega) ⟨fa, fb, wa, wb, us, H.ok.elems x hx, H.tv.elems x hx⟩ hee hx'
   · -- tuple
     rename_i ts' g'
     have fb := H.fb; unfold Ty.Frag at fb
@@ -455,7 +456,7 @@ theorem recv_array (n : Nat) (ih : Sound cfg n) (e : Ty) (r : Rng) (b : Ty) (v :
         have h2 := h.2
         rw [if_neg hz] at h2
         simp only [List.isEmpty_nil, if_true] at h2
-        exact ih e .any x (by simp [Ty.w]; omega) ⟨fa, by unfold Ty.Frag; trivial, wa, by unfold Ty.WF; trivial, by unfold Ty.US; trivial, H.ok.elems x hx⟩ h2 (by unfold inst; rfl)
+        exact ih e .any x (by simp [Ty.w]; omega) ⟨fa, by unfold Ty.Frag; trivial, wa, by unfold Ty.WF; trivial, by unfold Ty.US; trivial, H.ok.elems x hx, H.tv.elems x hx⟩ h2 (by unfold inst; rfl)
       | cons t0 ts0 =>
         have hne : ts' ≠ [] := by rw [hts]; simp
         have hcond : ¬(ts'.isEmpty = true) := by rw [hts]; simp
@@ -474,7 +475,7 @@ theorem recv_array (n : Nat) (ih : Sound cfg n) (e : Ty) (r : Rng) (b : Ty) (v :
         have ht := List.getElem?_eq_getElem hlen
         have hm : ts'[min i (ts'.length - 1)] ∈ ts' := List.getElem_mem hlen
         have hix := hzip i _ x ht (by rw [List.getElem?_eq_getElem hlt, hget])
-        exact ih e _ x (by have := Ty.w_lt_wl hm; omega) ⟨fa, fb _ hm, wa, wb _ hm, us' _ hm, H.ok.elems x hx⟩ (hall _ hm) hix
+        exact ih e _ x (by have := Ty.w_lt_wl hm; omega) ⟨fa, fb _ hm, wa, wb _ hm, us' _ hm, H.ok.elems x hx, H.tv.elems x hx⟩ (hall _ hm) hix
 
 theorem length_zero_of_contains {r : Rng} {n : Nat} (h : r.contains n = true) (hz : r.hi ≤ 0) : n = 0 := by
   simp [Rng.contains] at h; omega
@@ -515,8 +516,8 @@ theorem recv_hash (n : Nat) (ih : Sound cfg n) (k x : Ty) (r : Rng) (b : Ty) (v 
         rcases this with h3 | h3
         · exact absurd h3 hnone
         · exact h3
-      exact ⟨ih k k' e.1 (by omega) ⟨fa.1, fb.1, wa.1, wb.1, us.1, H.ok.keys e he⟩ hkv.1 h2.1,
-             ih x x' e.2 (by omega) ⟨fa.2, fb.2, wa.2, wb.2, us.2, H.ok.vals e he⟩ hkv.2 h2.2⟩
+      exact ⟨ih k k' e.1 (by omega) ⟨fa.1, fb.1, wa.1, wb.1, us.1, H.ok.keys e he, H.tv.keys e he⟩ hkv.1 h2.1,
+             ih x x' e.2 (by omega) ⟨fa.2, fb.2, wa.2, wb.2, us.2, H.ok.vals e he, H.tv.vals e he⟩ hkv.2 h2.2⟩
   · -- struct
     rename_i ms'
     have fb := H.fb; unfold Ty.Frag at fb
@@ -538,10 +539,10 @@ theorem recv_hash (n : Nat) (ih : Sound cfg n) (k x : Ty) (r : Rng) (b : Ty) (v 
     have hwm := Ty.w_lt_wm hm
     constructor
     · have := ih k (.strVal m.1) e.1 (by simp [Ty.w]; omega)
-        ⟨fa.1, by unfold Ty.Frag; trivial, wa.1, by unfold Ty.WF; trivial, by unfold Ty.US; trivial, H.ok.keys e he⟩ hmem.1
+        ⟨fa.1, by unfold Ty.Frag; trivial, wa.1, by unfold Ty.WF; trivial, by unfold Ty.US; trivial, H.ok.keys e he, H.tv.keys e he⟩ hmem.1
         (by rw [hk]; unfold inst; simp)
       exact this
-    · exact ih x m.2.2 e.2 (by omega) ⟨fa.2, fb m hm, wa.2, wb.2 m hm, us m hm, H.ok.vals e he⟩ hmem.2 hmi
+    · exact ih x m.2.2 e.2 (by omega) ⟨fa.2, fb m hm, wa.2, wb.2 m hm, us m hm, H.ok.vals e he, H.tv.vals e he⟩ hmem.2 hmi
 
 theorem recv_tuple (n : Nat) (ih : Sound cfg n) (ts : List Ty) (g : Option Rng) (b : Ty) (v : Val)
     (hw : (Ty.tuple ts g).w + b.w ≤ n + 1) (H : Hyp cfg (.tuple ts g) b v)
@@ -589,7 +590,7 @@ theorem recv_tuple (n : Nat) (ih : Sound cfg n) (ts : List Ty) (g : Option Rng) 
         rcases hi.2 with h2 | h2
         · exact inst_of_isAny cfg h2 x
         · exact (instAll_iff cfg false e' vs).1 h2 x hxm
-      exact ih t e' x (by have := Ty.w_lt_wl hm; omega) ⟨fa t hm, fb, wa t hm, wb, us', H.ok.elems x hxm⟩
+      exact ih t e' x (by have := Ty.w_lt_wl hm; omega) ⟨fa t hm, fb, wa t hm, wb, us', H.ok.elems x hxm, H.tv.elems x hxm⟩
         ((asgAllL_iff cfg false ts e').1 hall t hm) hx'
   · -- tuple
     rename_i ts' g'
@@ -658,7 +659,7 @@ theorem recv_tuple (n : Nat) (ih : Sound cfg n) (ts : List Ty) (g : Option Rng) 
             · rw [e1]; exact ht
             · rw [e2]; exact ht'
         exact ih t _ x (by have := Ty.w_lt_wl hm; have := Ty.w_lt_wl hm'; omega)
-          ⟨fa t hm, fb _ hm', wa t hm, wb _ hm', us' _ hm', H.ok.elems x hxm⟩ hasg hix
+          ⟨fa t hm, fb _ hm', wa t hm, wb _ hm', us' _ hm', H.ok.elems x hxm, H.tv.elems x hxm⟩ hasg hix
 
 theorem recv_struct (n : Nat) (ih : Sound cfg n) (ms : List Member) (b : Ty) (v : Val)
     (hw : (Ty.struct ms).w + b.w ≤ n + 1) (H : Hyp cfg (.struct ms) b v)
@@ -698,7 +699,7 @@ theorem recv_struct (n : Nat) (ih : Sound cfg n) (ms : List Member) (b : Ty) (v 
       rw [SMemberOK, structMember_mem cfg false m.1 m.2.1 m.2.2 ms' wb.1 m' hm' hnm] at h1
       simp only [Bool.and_eq_true] at h1
       exact ih m.2.2 m'.2.2 e.2 (by have := Ty.w_lt_wm hm; have := Ty.w_lt_wm hm'; omega)
-        ⟨fa m hm, fb m' hm', wa.2 m hm, wb.2 m' hm', us m' hm', H.ok.vals e he⟩ h1.2 hmi
+        ⟨fa m hm, fb m' hm', wa.2 m hm, wb.2 m' hm', us m' hm', H.ok.vals e he, H.tv.vals e he⟩ h1.2 hmi
     · intro m hm hopt
       have h1 := hok m hm
       rw [SMemberOK] at h1
